@@ -1,11 +1,13 @@
 (* C06 -- FEN output parses back.  PARTIAL.
    Proved on the model: the decimal printing of both clocks round-trips through the integer parser for every value
    0..2^31-1; the two characters printed for an en-passant square parse back to that square in both arithmetic modes.
-   The board rows, the castling letters (incl. the Shredder letter for an inner rook, repaired in eb1b15a) and the
+   The board field round-trips for every well-formed position in both modes (FenBoard.v).
+   The castling letters (incl. the Shredder letter for an inner rook, repaired in eb1b15a) and the
    whole-string round trip are decided by the correspondence run on positions reached by play and on canonical
    X-FEN strings written by an independent printer. *)
 From Coq Require Import NArith ZArith List Bool.
-From Rawr Require Import Consts Bits Magic Position MoveGen MakeMove Fen NotationFacts.
+From Rawr Require Import Consts Bits Magic Position MoveGen MakeMove Fen NotationFacts HashFacts KeyAbs FenBoard.
+Import ListNotations.
 Local Open Scope Z_scope.
 
 Theorem C06_clock_roundtrip : forall z, 0 <= z <= I32_MAX -> parse_i32 (show_Z z) = Some z.
@@ -14,5 +16,15 @@ Proof. exact parse_show_Z. Qed.
 Theorem C06_ep_field_roundtrip : forall mode e, (e < 64)%N -> ep_roundtrip_ok mode e = true.
 Proof. exact ep_field_roundtrip. Qed.
 
+(* the board field: for every well-formed position in White's frame the printer never hits its "Uh oh" panic and the string it
+   prints is read back by the parser's XOR-toggling loop as exactly the eight boards, with the square counter at 64, in both
+   arithmetic modes (no u8 trap is reached).  Proof by an invariant over the squares in FEN order (FenBoard.v). *)
+Theorem C06_board_field_roundtrip : forall np mode, WF np -> BB8 np -> turn np = false ->
+  exists b, fen_board np [7; 6; 5; 4; 3; 2; 1; 0]%N = Some b
+    /\ board_loop mode (mkBA 0 0 [0; 0; 0; 0; 0; 0]%N 0) b
+       = Some (mkBA (c_us np) (c_them np) [pawns np; knights np; bishops np; rooks np; queens np; kings np] 64).
+Proof. exact board_field_roundtrip. Qed.
+
 Print Assumptions C06_clock_roundtrip.
 Print Assumptions C06_ep_field_roundtrip.
+Print Assumptions C06_board_field_roundtrip.
